@@ -202,6 +202,9 @@ class ClockCtl(sm.SM):
         # signature: configuration, kind of step (cone key), differing observables of this property's cone
         fields = set(fail["fields"])
         cones = rec["cones"]
+        if rec.get("ck") == "Recv_M" and fields & {"cons", "used"} and not fail.get("panic"):
+            # the consensus decision itself differs: steering, frequency, leap and accounting differences are consequences
+            fields &= set(cones.get("C03", [])) | set(cones.get("C37", []))
         hit = [p for p, c in cones.items() if fields & set(c)]
         sig = "ClockCtl:%s:%s:%s" % (cfgname, rec.get("ck", self.act_sig(rec["act"])), ",".join(sorted(fields & set(cones.get(prop, [])))))
         detail = {"how": how, "cfg": cfgname, "constants": CFGS.get(cfgname), "history": acts, "pre": rec.get("pre"),
@@ -257,7 +260,7 @@ def fast_tours(g, init_state, want, max_len, rng):
         n = 0
         while q:
             u, d = q.popleft()
-            if d >= min(budget, 6):
+            if d >= min(budget, 14):
                 continue
             for ei in g.out.get(u, ()):
                 v = g.edges[ei][1]
@@ -273,7 +276,7 @@ def fast_tours(g, init_state, want, max_len, rng):
                         v = u2
                     p.reverse()
                     return p
-                if n > 3000:
+                if n > 20000:
                     return None
                 q.append((v, d + 1))
         return None
@@ -306,7 +309,7 @@ def fast_tours(g, init_state, want, max_len, rng):
     return walks
 
 
-def replay_cfg(out, prop, tier, seed, cfgname, max_len=40):
+def replay_cfg(out, prop, tier, seed, cfgname, max_len=120):
     """(M)+(G) for one bounded configuration of MC_ClockCtl (as sm.SM.model_and_replay, with fast_tours)."""
     import time
     c = ClockCtl()
